@@ -56,7 +56,7 @@ class Ctx:
                                  sites=sites or [], config=self.config or "all"))
 
     def bad(self, rule, anchor, msg, site=None, detail=None, extra=None):
-        key = "%s:%s" % (rule, anchor) + ((":" + detail) if detail else "")
+        key = ("%s:%s" % (rule, anchor) + ((":" + detail) if detail else "")).replace(" ", "_")
         # the same violation may be seen in several feature configurations: report once
         for v in self.violations:
             if v["key"] == key:
